@@ -7,7 +7,7 @@ SetMask(S) == LET RECURSIVE Sum(_)
                   Sum(T) == IF T = {} THEN 0 ELSE LET x == CHOOSE x \in T : TRUE IN 2^(x-1) + Sum(T \ {x})
               IN Sum(S)
 Enc(S) == [p \in Peers |-> <<IF S[p].k THEN 1 ELSE 0, SetMask(S[p].c), IF S[p].t THEN 1 ELSE 0,
-                             IF S[p].a THEN 1 ELSE 0, S[p].kind, SetMask(S[p].pr)>>]
+                             IF S[p].a THEN 1 ELSE 0, S[p].kind, SetMask(S[p].pr), IF S[p].old THEN 1 ELSE 0>>]
 PubSeq(i) == <<i.conn, i.trusted, i.full, i.arch>>
 GenNext == /\ Next
            /\ PrintT(ToJson([op |-> op'.name, p |-> op'.p, x |-> op'.x, pre |-> Enc(P), post |-> Enc(P'),
